@@ -120,6 +120,22 @@ class FuncInfo(object):
         self.decorators = node.decorator_list if hasattr(node, 'decorator_list') else []
 
     @property
+    def main_body(self):
+        """the statement sequence the function consists of: when the whole body (docstring and declarations aside) is one
+        `try: ... finally: ...` without handlers, or one `with ...:`, the statements inside it (rules that look for statements in
+        sequence look there; what the wrapper itself does is other rules' business)"""
+        body = self.node.body
+        for _ in range(4):
+            core = [s for s in body if not (isinstance(s, ast.Expr) and isinstance(s.value, ast.Constant) and isinstance(s.value.value, str))
+                    and not isinstance(s, (ast.Global, ast.Nonlocal, ast.Pass))]
+            if len(core) == 1 and ((isinstance(core[0], ast.Try) and not core[0].handlers and not core[0].orelse)
+                                   or isinstance(core[0], (ast.With, ast.AsyncWith))):
+                body = core[0].body
+            else:
+                break
+        return body
+
+    @property
     def key(self):
         return '%s:%s' % (self.module.name, self.qualname)
 
